@@ -580,7 +580,7 @@ Definition prop_owner (name : bytes) : list string :=
   else if bytes_eqb name (bs "pure") || bytes_eqb name (bs "shared-race-free") || bytes_eqb name (bs "shared-same-results") then ["C13"%string]
   else if bytes_eqb name (bs "http-faithful") then ["C17"%string]
   else if bytes_eqb name (bs "http-options-agree") then ["C12"%string]
-  else if bytes_eqb name (bs "http-linearizable") then ["C16"%string]
+  else if bytes_eqb name (bs "http-linearizable") || bytes_eqb name (bs "http-list-consistent") then ["C16"%string]
   else [].
 
 (* C04: any {dddd} in the text that is not one of the 60 FAIM markers must make the read fail *)
@@ -590,10 +590,22 @@ Fixpoint has_unknown_marker (s : bytes) : bool :=
   | _ :: t => (is_marker_at s && negb (mem_bytes (firstn 6 s) faim_markers)) || has_unknown_marker t
   end.
 
+(* C08: a segment that cannot fit the scanner's 64 KiB buffer cannot have been read: the read must fail *)
+Fixpoint max_gap (ms : list nat) (prev : nat) (len : nat) : nat :=
+  match ms with
+  | [] => len - prev
+  | m :: r => Nat.max (m - prev) (max_gap r m len)
+  end.
+Definition has_long_segment (text : bytes) : bool :=
+  match markers text with
+  | [] => false
+  | m0 :: r => max_token <? max_gap r m0 (length text)
+  end.
+
 Definition oracle_read (pid : bytes) (args : list bytes) : option bytes :=
   match args with
   | [_; _; final; text; _] =>
-      if pid_is pid "C08" then (if bytes_eqb final (bs "eof") then None else Some (bs "reject"))
+      if pid_is pid "C08" then (if bytes_eqb final (bs "eof") then (if has_long_segment text then Some (bs "reject") else None) else Some (bs "reject"))
       else if pid_is pid "C03" then Some (bs "no-panic")
       else if pid_is pid "C04" then (if has_unknown_marker (drop_lf (drop_crlf text)) then Some (bs "reject") else None)
       else None
